@@ -528,6 +528,7 @@ def generate(rng, idx, tier, variant):
         elif kind == 'solve':
             opts = S.gen_opts(rng, False)
             opts['offset'] = 0
+            opts['max_iter'] = min(opts['max_iter'], 300)
             if opts['min_iter'] > opts['max_iter']:
                 opts['min_iter'] = 0
             opts['failures'] = 'ignore'
